@@ -17,12 +17,28 @@ import (
 func exec(line string) zv.Out {
 	f := strings.Fields(line)
 	typ, args := f[1], f[2:]
+	if typ == "cc" { // c33 cc <type> <convention> <seed>
+		run, ok := structs[args[0]]
+		if !ok {
+			panic("unknown type " + args[0])
+		}
+		seed, err := strconv.ParseUint(args[2], 10, 64)
+		if err != nil {
+			panic("bad seed")
+		}
+		viol, tag := run(zv.NewRng(seed), args[1])
+		pos := "non-addressable"
+		if conventions[args[1]] {
+			pos = "addressable"
+		}
+		return zv.Out{Go: "", Viol: viol, Tags: []string{"cc", "cc:" + args[1], "cc:" + args[0], "cc:" + pos + ":" + tag}}
+	}
 	if run, ok := structs[typ]; ok {
 		seed, err := strconv.ParseUint(args[0], 10, 64)
 		if err != nil {
 			panic("bad seed")
 		}
-		viol, tag := run(zv.NewRng(seed))
+		viol, tag := run(zv.NewRng(seed), "ptr")
 		return zv.Out{Go: "", Viol: viol, Tags: []string{typ, typ + ":" + tag}}
 	}
 	switch typ {
@@ -233,13 +249,32 @@ func gen(g *zv.Gen) {
 	sort.Strings(sn)
 	ns := g.N(600, 40000)
 	for _, k := range sn {
+		if !strings.HasPrefix(k, "s-") {
+			continue
+		}
 		for i := 0; i < ns; i++ {
 			g.Emitf("c33 %s %d", k, r.U64())
+		}
+	}
+
+	// ---- T3 only: every type in every calling convention (value, pointer, field of a struct passed by value / by
+	// pointer, nested struct, map value, slice / array element, inside interface{}; value and pointer decode targets).
+	// The first seeds per (type, convention) are fixed so that every run has the same small grid.
+	nc := g.N(12, 400)
+	for _, k := range sn {
+		for _, c := range convNames() {
+			for i := 0; i < nc; i++ {
+				seed := uint64(i + 1)
+				if i >= 4 {
+					seed = r.U64()
+				}
+				g.Emitf("c33 cc %s %s %d", k, c, seed)
+			}
 		}
 	}
 }
 
 func init() {
 	zv.Register(&zv.Prop{ID: "C33", Topic: "c33", Gen: gen, Exec: exec,
-		Rule: "every value of TLSVersion, CipherSuiteID, CurveID, json.TLSCurveID (65536 each), CompressionMethod, PointFormat (256 each), SignatureAndHash (both axes in full + 9 hash columns; thorough: all 65536 pairs), ClientAuthType -3..69 and the int64 bounds, KeyUsage 0..511 + 600 random ints, PublicKeyAlgorithm and SignatureAlgorithm -3..39: real MarshalJSON then real UnmarshalJSON, both compared with the Lean model; json.ECPoint (with/without Y, nil X) and json.DHParams (nil optional members) compared member by member with the model, ECPoint decode-only lines with absent/null members; decode-only lines with right/mismatched/unknown names, out-of-range values and unknown.N strings for every decoder; T3-only random structured values (DH/ECDH/RSA parameters, points with and without Y, general names, name constraints, IP subtrees with CIDR and non-CIDR masks, names, attribute values, extensions, other names, OIDs, fingerprints, CT DigitallySigned and SHA256Hash, key share) — a case is one distinct line"})
+		Rule: "every value of TLSVersion, CipherSuiteID, CurveID, json.TLSCurveID (65536 each), CompressionMethod, PointFormat (256 each), SignatureAndHash (both axes in full + 9 hash columns; thorough: all 65536 pairs), ClientAuthType -3..69 and the int64 bounds, KeyUsage 0..511 + 600 random ints, PublicKeyAlgorithm and SignatureAlgorithm -3..39: real MarshalJSON then real UnmarshalJSON, both compared with the Lean model; json.ECPoint (with/without Y, nil X) and json.DHParams (nil optional members) compared member by member with the model, ECPoint decode-only lines with absent/null members; decode-only lines with right/mismatched/unknown names, out-of-range values and unknown.N strings for every decoder; T3-only random structured values (DH/ECDH/RSA parameters, points with and without Y, general names, name constraints, IP subtrees with CIDR and non-CIDR masks, names, attribute values, extensions, other names, OIDs, fingerprints, CT DigitallySigned and SHA256Hash, key share); cc = EVERY type above (11 enumerated + 19 structured runners) in EVERY calling convention of encoding/json — json.Marshal(&v), (&p), (v), field of a struct passed by value / by pointer, *T field, struct nested in a struct by value / by pointer, map[string]T (by value / by pointer), map[string]*T, []T, []*T, [1]T by value / by pointer, []interface{}{v}, []interface{}{&v}, interface{} field, map[string]interface{} — decoded into the matching value and pointer targets (T, *T allocated by the decoder, container members), 4 fixed + 8 random values per (type, convention) (thorough: 400): the round trip must hold in each; addressable and non-addressable positions are tagged separately — a case is one distinct line"})
 }
